@@ -3,22 +3,28 @@
  * [d_first, d_first + (last-first)) starting from first and proceeding to last.  For each non-negative integer
  * n < (last-first), performs *(d_first + n) = std::move(*(first + n)).  Returns d_first + (last-first)."
  * The body below is that sentence; libstdc++ is TRUSTED to behave like it.  Element move-assignment is
- * ELEM_move_assign, so assigning into a destroyed slot or from a dead one is a lifetime obligation. */
+ * ELEM_move_assign, so assigning into a destroyed slot or from a dead one is a lifetime obligation.
+ * g_mv_i is the ISO text's n (elements moved so far); a unit that reaches the loop supplies its loop contract and the
+ * invariant instances for the two slots the body touches through the two macros. */
 #ifndef C14_STD_STUBS_H
 #define C14_STD_STUBS_H
 #include "c14_sv.h"
 #ifndef C14_MOVE_LOOP_CONTRACT
 #define C14_MOVE_LOOP_CONTRACT
 #endif
+#ifndef C14_MOVE_BODY_BEGIN
+#define C14_MOVE_BODY_BEGIN
+#endif
+size_t g_mv_i;
 static inline ELEM *std_move_range(ELEM *first, ELEM *last, ELEM *d_first)
 {
-    while (first != last)
+    size_t n = (size_t)(last - first);
+    for (g_mv_i = 0; g_mv_i < n; ++g_mv_i)
     C14_MOVE_LOOP_CONTRACT
     {
-        ELEM_move_assign(d_first, first);
-        ++d_first;
-        ++first;
+        C14_MOVE_BODY_BEGIN
+        ELEM_move_assign(d_first + g_mv_i, first + g_mv_i);   /* *(d_first + n) = std::move(*(first + n)) */
     }
-    return d_first;
+    return d_first + n;
 }
 #endif
